@@ -266,4 +266,123 @@ example : (match removeVertices exGeom [-5, 0] with
     ([11, 12, 13, 14], some [[0, 1], [2, 3]], [("a", [1, 2, 3, 4])], [("c", [8, 9])]) := by
   decide
 
+/-! ### masked copies -/
+
+theorem mem_keep_cellKept (m : List Bool) : ∀ (cs : List (List Nat)) (c0 : List Nat),
+    c0 ∈ keep (cs.map (cellKept m)) cs → cellKept m c0 = true := by
+  intro cs
+  induction cs with
+  | nil => intro c0 h; simp [keep] at h
+  | cons x xs ih =>
+    intro c0 h
+    simp only [List.map_cons, keep] at h
+    by_cases hx : cellKept m x
+    · simp only [hx, ↓reduceIte, List.mem_cons] at h
+      rcases h with rfl | h
+      · exact hx
+      · exact ih c0 h
+    · simp only [hx, Bool.false_eq_true, ↓reduceIte] at h
+      exact ih c0 h
+
+/-- **A masked copy is aligned**: one entry per vertex / per cell, cells reference existing vertices. -/
+theorem mc_aligned (g c : Geom P T) (m : List Bool) (hc : Consistent g)
+    (h : maskedCopy g m = .ok c) : Consistent c := by
+  unfold maskedCopy at h
+  split at h
+  · cases h
+  rename_i hlen
+  have hlen : m.length = g.verts.length := by simpa using hlen
+  obtain ⟨hv, hcd, hcell⟩ := hc
+  cases hcs : g.cells with
+  | none =>
+    simp only [hcs] at h
+    cases h
+    refine ⟨?_, ?_, ?_⟩
+    · intro d hd
+      obtain ⟨d0, h0, rfl⟩ := deleteData_mem hd
+      exact keep_length_eq _ _ _ (hv d0 h0)
+    · intro d hd
+      have := hcd d hd
+      simpa [nCells] using this
+    · intro c hc'; simp [hcs] at hc'
+  | some cells =>
+    simp only [hcs] at h
+    cases h
+    refine ⟨?_, ?_, ?_⟩
+    · intro d hd
+      obtain ⟨d0, h0, rfl⟩ := deleteData_mem hd
+      exact keep_length_eq _ _ _ (hv d0 h0)
+    · intro d hd
+      obtain ⟨d0, h0, rfl⟩ := deleteData_mem hd
+      have hl := hcd d0 h0
+      simp only [nCells, hcs, Option.getD_some] at hl
+      simp only [nCells, Option.getD_some, List.length_map]
+      exact keep_length_eq _ _ _ hl
+    · intro c hc' v hv'
+      simp only [Option.getD_some] at hc'
+      obtain ⟨c0, hc0, rfl⟩ := List.mem_map.mp hc'
+      obtain ⟨v0, hv0, rfl⟩ := List.mem_map.mp hv'
+      have hkept := mem_keep_cellKept m cells c0 hc0
+      have hm := (cellKept_iff _ _).mp hkept v0 hv0
+      have hlt : v0 < g.verts.length := by
+        rcases Nat.lt_or_ge v0 m.length with h | h
+        · omega
+        · rw [List.getElem?_eq_none h] at hm; cases hm
+      exact rank_lt _ _ _ hm hlt
+
+/-- **Selected vertices keep their coordinates and their values** in the copy, at the position `rank`. -/
+theorem mc_survivors (g c : Geom P T) (m : List Bool) (h : maskedCopy g m = .ok c)
+    (j : Nat) (hj : j < g.verts.length) (hm : m[j]? = some true) :
+    c.verts[rank m j]? = g.verts[j]?
+    ∧ ∀ n v, (n, v) ∈ g.vdata → v.length = g.verts.length →
+        ∃ v', (n, v') ∈ c.vdata ∧ v'[rank m j]? = v[j]? := by
+  unfold maskedCopy at h
+  split at h
+  · cases h
+  have key : c.verts = keep m g.verts ∧ c.vdata = deleteData m g.vdata := by
+    cases hcs : g.cells <;> simp only [hcs] at h <;> cases h <;> exact ⟨rfl, rfl⟩
+  refine ⟨?_, ?_⟩
+  · rw [key.1]; exact keep_get _ _ _ hm hj
+  · intro n v hv hl
+    refine ⟨keep m v, ?_, ?_⟩
+    · rw [key.2]; unfold deleteData
+      exact List.mem_map.mpr ⟨(n, v), hv, rfl⟩
+    · exact keep_get _ _ _ hm (by omega)
+
+/-- the cells of the copy are exactly the cells all of whose vertices are selected, in order, re-indexed; with
+    `rv_cells_same_coords` each of them connects the same coordinates as in the source -/
+theorem mc_cells_spec (g c : Geom P T) (m : List Bool) (cells : List (List Nat))
+    (hcs : g.cells = some cells) (h : maskedCopy g m = .ok c) :
+    c.cells = some ((cells.filter (cellKept m)).map (remap m))
+    ∧ c.cdata = deleteData (cells.map (cellKept m)) g.cdata := by
+  unfold maskedCopy at h
+  simp only [hcs] at h
+  split at h
+  · cases h
+  cases h
+  simp only [Option.some.injEq]
+  rw [keep_map_eq_filter]
+  constructor <;> first | rfl | trivial
+
+/-- a mask of the wrong length is refused -/
+theorem mc_refuse (g : Geom P T) (m : List Bool) (h : m.length ≠ g.verts.length) :
+    maskedCopy g m = .error .valueError := by
+  unfold maskedCopy
+  simp [h]
+
+/-- removing vertices is the masked copy by the complement of the removed indices, applied in place -/
+theorem rv_eq_maskedCopy (g : Geom P T) (idx : List Int)
+    (h1 : maxGuard g.verts.length idx = true) (h2 : idxOk g.verts.length idx = true) :
+    removeVertices g idx = maskedCopy g (maskOfIdx g.verts.length idx) := by
+  unfold removeVertices maskedCopy
+  simp [h1, h2, maskOfIdx]
+
+
+/-- non-vacuity: a curve with three segments copied without its second vertex -/
+example : (match maskedCopy (P := Nat) (T := Nat)
+      ⟨[10, 11, 12, 13], some [[0, 1], [2, 3], [1, 2]], [("va", [1, 2, 3, 4])], [("ca", [7, 8, 9])]⟩ [true, false, true, true] with
+    | .ok c => (c.verts, c.cells, c.vdata, c.cdata)
+    | .error _ => ([], none, [], []))
+    = ([10, 12, 13], some [[1, 2]], [("va", [1, 3, 4])], [("ca", [8])]) := by decide
+
 end GeoVerif.Geom
